@@ -402,6 +402,8 @@ def threaded_case(case):
     n_threads readers hammer get_current_instant(); `advancers` extra threads call advance()/advance_<unit>()."""
     import sys
     from pyoda_time.testing import FakeClock
+    if case[0] == "mixed":
+        return mixed_threads_case(case)
     nthr, k, now, auto, advancers, use_unit = case
     clock = FakeClock(inst(*split(now)), dur(*split(auto)))
     start = threading.Barrier(nthr + advancers)
@@ -468,6 +470,60 @@ def threaded_case(case):
     return None
 
 
+def mixed_threads_case(case):
+    """("mixed", n_threads, ops_per_thread, seed): EVERY public FakeClock operation from several threads at once -
+    reads, advance, advance_<unit>, reset, auto_advance assignment and reading. The property asks that every
+    operation completes; two locks taken in opposite orders by two operations only show when both run concurrently."""
+    import random
+    import sys
+    from pyoda_time.testing import FakeClock
+    _, nthr, k, seed = case
+    clock = FakeClock(inst(0, 0), dur(0, 1))
+    start = threading.Barrier(nthr)
+    errors = []
+    done = [0] * nthr
+
+    def worker(i):
+        rng = random.Random(seed * 131 + i)
+        role = i % 4
+        try:
+            start.wait(WATCHDOG_S)
+            for _ in range(k):
+                r = rng.random()
+                if role == 0 or r < 0.25:
+                    clock.get_current_instant()
+                elif role == 1 or r < 0.5:
+                    clock.auto_advance = dur(0, rng.choice([0, 1, 7, 1000]))
+                    _ = clock.auto_advance
+                elif role == 2 or r < 0.75:
+                    rng.choice([lambda: clock.advance(dur(0, 5)), lambda: clock.advance_ticks(1), lambda: clock.advance_seconds(1),
+                                lambda: clock.advance_nanoseconds(3), lambda: clock.advance_milliseconds(1)])()
+                else:
+                    clock.reset(inst(0, rng.randrange(10**9)))
+                done[i] += 1
+        except BaseException as e:  # noqa: BLE001
+            errors.append(e)
+
+    ths = [threading.Thread(target=worker, args=(i,), daemon=True) for i in range(nthr)]
+    old = sys.getswitchinterval()
+    sys.setswitchinterval(1e-6)
+    try:
+        for th in ths:
+            th.start()
+        deadline = time.time() + WATCHDOG_S + 0.002 * nthr * k
+        for th in ths:
+            th.join(max(0.0, deadline - time.time()))
+    finally:
+        sys.setswitchinterval(old)
+    alive = sum(th.is_alive() for th in ths)
+    if alive:
+        return {"key": "fakeclock-threads-block", "what": f"{alive} of {nthr} threads mixing reads, advances, resets and auto_advance "
+                f"assignments on one FakeClock never finished (completed operations per thread: {done}, expected {k} each): a call blocks forever"}
+    if errors:
+        return {"key": "fakeclock-threads-exception", "what": f"thread raised {type(errors[0]).__name__}: {errors[0]}"}
+    return None
+
+
 def threaded_cases(ctx):
     rng = ctx.rng
     out = []
@@ -478,6 +534,9 @@ def threaded_cases(ctx):
         out.append((nthr, ctx.scale(200, 2000), rng.randint(-10**18, 10**18), rng.randint(1, 10**6), 2, False))
     out.append((4, 200, 0, 1, 2, True))      # advance_<unit> from other threads while reading
     out.append((16, 100, 0, 7, 4, True))
+    for nthr in (2, 4, 8):
+        for rep in range(ctx.scale(2, 10)):
+            out.append(("mixed", nthr, ctx.scale(4000, 20000), rng.randint(0, 10**6)))
     return out
 
 
@@ -587,6 +646,33 @@ def check_other(case):
         y = c.get_current_instant()
         if (y - x).to_nanoseconds() < -50_000_000:
             return {"key": "systemclock-os-time", "what": "SystemClock went back by more than 50 ms between two reads"}
+        # scripted operating-system time (time.time_ns replaced for the duration of the case): forward steps, small and
+        # large backward steps, repeated values - every read must be exactly the OS value, from exactly one OS read
+        base = 1_800_000_000 * 10**9 + i * 977
+        script = [base, base + 5_000_000, base + 2_000_000, base + 3_000_000, base + 3_000_000, base + 3_000_000 - 999_999_999,
+                  base + 10**9, base + 10**9 - 1, base - 7200 * 10**9, base + 86400 * 10**9, base + 86400 * 10**9 - 10**9]
+        calls = []
+        real = time.time_ns
+        it = iter(script)
+
+        def fake():
+            v = next(it)
+            calls.append(v)
+            return v
+        time.time_ns = fake
+        try:
+            got = []
+            for _ in script:
+                r = c.get_current_instant()
+                got.append(r._days_since_epoch * NPD + r._nanosecond_of_day)
+        finally:
+            time.time_ns = real
+        if calls != script[:len(calls)] or len(calls) != len(script):
+            return {"key": "systemclock-os-time", "what": f"SystemClock made {len(calls)} operating-system time reads for {len(script)} calls"}
+        for n, (g, w) in enumerate(zip(got, script)):
+            if g != w:
+                return {"key": "systemclock-os-time", "what": f"scripted OS time: read {n} returned epoch + {g} ns, the operating system said epoch + {w} ns "
+                        f"({g - w:+d} ns off; previous OS values {script[max(0, n - 2):n]})"}
         return None
     if kind == "from_utc":
         from pyoda_time.testing import FakeClock
